@@ -141,3 +141,76 @@ Proof.
   - eapply pinned_reparse_norm; eauto.
   - eapply norm_nn_free; eauto.
 Qed.
+
+(* ---- norm never leaves a negation directly under a negation (any AST) ---- *)
+Lemma nn_free_norm : forall a, nn_free (norm a) = true.
+Proof.
+  induction a using ast_ind_nested; cbn [norm nn_free]; auto.
+  - destruct (norm a) eqn:E; cbn [nn_free is_not negb andb] in *; auto.
+    apply andb_true_iff in IHa. tauto.
+  - induction H; simpl; auto. rewrite H, IHForall. reflexivity.
+  - induction H; simpl; auto. rewrite H, IHForall. reflexivity.
+Qed.
+
+(* ---- norm only ever shortens the pinned text; same length means nothing was removed ---- *)
+Definition tlen (a : ast) : nat := length (to_string false a).
+
+Lemma join_len_norm : forall sep xs,
+  Forall (fun x => (tlen (norm x) <= tlen x)%nat /\ (tlen (norm x) = tlen x -> norm x = x)) xs ->
+  (length (join_with sep (map (to_string false) (map norm xs))) <= length (join_with sep (map (to_string false) xs)))%nat
+  /\ (length (join_with sep (map (to_string false) (map norm xs))) = length (join_with sep (map (to_string false) xs))
+      -> map norm xs = xs).
+Proof.
+  intros sep xs HF. induction HF as [|x xs [Hx1 Hx2] HF [IH1 IH2]]; [simpl; auto|].
+  unfold tlen in *. destruct xs as [|y ys].
+  - simpl. split; auto. intros E. rewrite Hx2; auto.
+  - change (join_with sep (map (to_string false) (map norm (x :: y :: ys))))
+      with (to_string false (norm x) ++ sep ++ join_with sep (map (to_string false) (map norm (y :: ys)))).
+    change (join_with sep (map (to_string false) (x :: y :: ys)))
+      with (to_string false x ++ sep ++ join_with sep (map (to_string false) (y :: ys))).
+    rewrite !app_length. split; [lia|]. intros E.
+    change (map norm (x :: y :: ys)) with (norm x :: map norm (y :: ys)).
+    rewrite Hx2 by lia. rewrite IH2 by lia. reflexivity.
+Qed.
+
+Lemma tlen_norm : forall a, (tlen (norm a) <= tlen a)%nat /\ (tlen (norm a) = tlen a -> norm a = a).
+Proof.
+  induction a using ast_ind_nested; try (split; [apply le_n|reflexivity]).
+  - (* not *) destruct IHa as [I1 I2]. unfold tlen in *. cbn [norm].
+    assert (T : forall y, length (to_string false (SNot y)) = S (length (to_string false y))) by reflexivity.
+    rewrite T. destruct (norm a) eqn:E; try (rewrite T; split; [lia|]; intros Q; rewrite I2 by lia; reflexivity).
+    (* norm a = SNot a0: two negations disappear *)
+    rewrite T in I1, I2. split; [lia|]. intros Q. lia.
+  - (* and *) destruct (join_len_norm s_and xs H) as [J1 J2]. unfold tlen. cbn [norm to_string length].
+    rewrite !app_length. cbn [length]. split; [lia|]. intros Q. rewrite J2 by lia. reflexivity.
+  - (* or *) destruct (join_len_norm s_or xs H) as [J1 J2]. unfold tlen. cbn [norm to_string length].
+    rewrite !app_length. cbn [length]. split; [lia|]. intros Q. rewrite J2 by lia. reflexivity.
+Qed.
+
+(* the pinned text of norm a equals the pinned text of a exactly when a has no negation under a negation *)
+Lemma pinned_text_norm_iff : forall a, to_string false (norm a) = to_string false a <-> nn_free a = true.
+Proof.
+  intros a. split.
+  - intros E. destruct (tlen_norm a) as [_ H]. rewrite <- H; [apply nn_free_norm|]. unfold tlen. rewrite E. reflexivity.
+  - intros N. rewrite norm_id; auto.
+Qed.
+
+(* Complete description of the pinned printer's round trip at the level the property speaks about: *)
+Lemma pinned_text_iff : forall s a a', parse s = Ok a -> parse (to_string false a) = Ok a' ->
+  (to_string false a' = to_string false a <-> nn_free a = true).
+Proof.
+  intros s a a' H1 H2. rewrite (pinned_reparse_norm s a H1) in H2. inversion H2; subst. apply pinned_text_norm_iff.
+Qed.
+
+Section UidIff.
+  Variable H : bytes -> bytes.
+  Hypothesis H_inj : forall x y, H x = H y -> x = y.
+
+  Lemma pinned_uid_iff : forall s a a', parse s = Ok a -> parse (to_string false a) = Ok a' ->
+    (uid H false a' = uid H false a <-> nn_free a = true).
+  Proof.
+    intros s a a' H1 H2. rewrite <- (pinned_text_iff s a a' H1 H2). unfold uid, uid_of_text. split.
+    - intros E. apply app_inv_head in E. apply H_inj in E. apply app_inv_head in E. exact E.
+    - intros E. rewrite E. reflexivity.
+  Qed.
+End UidIff.
